@@ -1,7 +1,7 @@
 CFG = dict(
     theorems=["C11.lex_progress", "C11.lex_terminates", "C11.lex_total", "C11.lex_layout_insensitive",
               "C11.lex_layout_pair", "C11.lex_keyword_case_insensitive", "C11.lex_literal_opaque",
-              "C11.lex_backtick_opaque", "C11.facts_keywords", "C11.facts_token_codes"],
+              "C11.lex_backtick_opaque", "C11.facts_keywords", "C11.facts_typos", "C11.facts_token_codes"],
     level="proof",
     distinct_by_op=True,
     rule="four case kinds per seed: (lexer) ops `lex` = byte strings (any byte incl. NUL / SQL punctuation soup / keyword+typo soup / digits-dots-minus) "
